@@ -63,7 +63,7 @@ func c10List(msgs []*fbb.Message, err error) string {
 
 func runC10(ctx *Ctx) error {
 	r, res := ctx.Rng, ctx.Res
-	res.Rule = "histories over a universe of 7 MIDs (incl. one sorting before '.' in file-name order, one containing a dot and one ending in the mailbox's own extension), 3 recipient forms, forwarder lists {none, one, two, mixed case, the same station twice or in two spellings} and the P2P-only flag: AddOut, Prepare, restart with a fresh DirHandler (normal / send-only), GetOutbound, SetSent, SetDeferred, ProcessInbound, GetInboundAnswer, SetUnread, folder listings; random histories of length 4..40 and (thorough) all histories of length <= 4 over a reduced alphabet. Every observation of the real DirHandler on a temporary directory is compared with the model; returned outbound messages must carry no X-FilePath / X-Unread / X-P2POnly header. SetSent of a MID not in the outbox (log.Fatalf) is run in a child process. Non-trivial: history with a SetSent or an inbound message followed by a query; distinct by history."
+	res.Rule = "histories over a universe of 7 MIDs (incl. one sorting before '.' in file-name order, one containing a dot and one ending in the mailbox's own extension), 3 recipient forms, forwarder lists {none, one, two, mixed case, the same station twice or in two spellings} and the P2P-only flag: AddOut, Prepare, restart with a fresh DirHandler (normal / send-only), GetOutbound, SetSent, SetDeferred, ProcessInbound, GetInboundAnswer, SetUnread, folder listings; random histories of length 4..40 (a third of them about one message within one long session) and (thorough) all histories of length <= 4 over a reduced alphabet. Every observation of the real DirHandler on a temporary directory is compared with the model; returned outbound messages must carry no X-FilePath / X-Unread / X-P2POnly header. SetSent of a MID not in the outbox (log.Fatalf) is run in a child process. Non-trivial: history with a SetSent or an inbound message followed by a query; distinct by history."
 	root, err := os.MkdirTemp("", "verif-c10-")
 	if err != nil {
 		return err
@@ -99,12 +99,25 @@ func runC10(ctx *Ctx) error {
 		inOut, inSent := map[string]bool{}, map[string]bool{}
 		nontriv := false
 		tag := 0
+		// a third of the histories follow ONE message through one long session (few restarts): post,
+		// defer, send, post again, ask ... in every order
+		focus := ""
+		if r.Intn(3) == 0 {
+			focus = mids[r.Intn(len(mids))]
+		}
 		for len(steps) < length {
 			mid := mids[r.Intn(len(mids))]
-			switch r.Intn(12) {
+			if focus != "" {
+				mid = focus
+			}
+			kind := r.Intn(12)
+			if focus != "" && (kind == 2 || kind == 3) && r.Intn(4) != 0 {
+				continue
+			}
+			switch kind {
 			case 0, 1:
-				if inSent[mid] {
-					continue
+				if inSent[mid] && r.Intn(2) == 0 {
+					continue // (half of the time) a message that was sent is not posted again
 				}
 				tag++
 				m := c10Msg{Mid: mid, To: []string{rcpts[r.Intn(len(rcpts))]}, P2P: r.Intn(4) == 0, Tag: tag}
